@@ -306,8 +306,8 @@ seed("C09-r3-1", "C09", "implementations found in the context paths memoised pro
 seed("C09-r3-2", "C09", "eq/ne operand order of unorderable keys decided by hash()", "eq / ne between a named constant and a number other than 0/1, different PYTHONHASHSEED", "C09 quick: text-differs-from-canonical (user:named_cmp)",
      first_result="missed (HELD): no generated key compared a named constant with a number", strengthened="user function with four such comparisons among the keys")
 seed("C09-r3-3", "C09", "alternate constant context shared across contexts", "xla_client, two functions sharing a constant subexpression in one process", "C09 quick: text-differs-from-canonical")
-seed("C14-r3-1", "C14", "complex diff_ulp does not forward flush_subnormals to the imaginary parts", "complex arguments, flush mode, imaginary parts subnormal / zero-vs-nonzero / of opposite sign", "C14 quick: complex-max-flush",
-     first_result="missed (HELD): the complex law was judged with flush_subnormals=False only", strengthened="complex distance in flush mode = max of the component distances in flush mode")
+# C14-r3-1 (complex diff_ulp drops flush_subnormals for the imaginary parts) is NOT kept: with it the unedited suite gives "20 failed, 1332 passed" (twice,
+# in separate scratch worktrees) - it does not pass the existing tests.  The law it prompted (complex distance in flush mode) stays in C14 and fires on it.
 seed("C14-r3-2", "C14", "module default flush mode captured at import (default argument)", "utils.default_flush_subnormals assigned at run time, mode unspecified at the call", "C14 quick: default-flush-switch",
      first_result="missed (HELD): the switch was never toggled", strengthened="unspecified mode follows the module-level switch as it is at call time (both values, diff_ulp and diff_log2ulp)")
 seed("C14-r3-3", "C14", "diff_log2ulp takes the bit length through math.frexp", "float64 distances within 2^-54 (relative) below a power of two >= 2^54", "C14 quick: log2ulp")
